@@ -70,6 +70,14 @@ theorem ok_read (inp : Input) (a i : Nat) : Ok inp (.read a i) ↔ i < inp.size 
     refine ⟨fun b hb => hb.elim, fun b hb => hb.elim, ?_, fun b hb => hb.elim, fun v hv => by cases hv⟩
     rintro b j ⟨rfl, rfl⟩; exact h2
 
+theorem ok_shift (inp : Input) (a i : Nat) : Ok inp (.shift a i) ↔ ¬ IsLvCr (inp.cat a) ∧ i < inp.size a := by
+  constructor
+  · intro h; exact ⟨h.writes a rfl, h.bounds a i ⟨rfl, rfl⟩⟩
+  · rintro ⟨h1, h2⟩
+    refine ⟨fun b hb => hb.elim, ?_, ?_, fun b hb => hb.elim, fun v hv => by cases hv⟩
+    · rintro b rfl; exact h1
+    · rintro b j ⟨rfl, rfl⟩; exact h2
+
 theorem ok_steal (inp : Input) (a : Nat) (d : Dest) :
     Ok inp (.steal a d) ↔ ¬ IsLvCr (inp.cat a) ∧ a < inp.args.length ∧ DestOk inp d := by
   constructor
